@@ -18,6 +18,8 @@
    Partial: torn writes to the tree / bitfield / data stores are not in these theorems (a torn page or node is
    re-derived by replay: C08_replay_exact, DESIGN 5.1); tools/c07.py tears every write of every generated
    history at every byte (<= 64 bytes) or at framing/sector boundaries and random cuts, on crate and model. *)
+From HC Require Import SoundCoreLib SoundCore ReplicaDisk1 ReplicaDisk3 ReplicaDisk5 TornReplicaA TornReplicaB TornReplica.
+From HC Require Import ClearRefine Unified1 CrashClear1 CrashClear3 TornClear TornHistory.
 From HC Require Import ClearRefine Unified1 CrashClear1 TornClear.
 From HC Require Import FlatTree Merkle Core Refine Reopen CrashCore1 CrashCore2 CrashCore3 TornCoreA TornCoreB TornCore.
 From HC Require Import Base NMap Codec CodecFacts Crypto Storage Bitfield Oplog OplogFacts StorageFacts Crash.
@@ -544,6 +546,193 @@ Theorem C07_torn_disk_with_clears_reopens :
            (hyg cr (f_content (d_oplog d)) -> hyg cr (f_content (d_oplog d'))).
 Proof. exact reopen_Z. Qed.
 
+Theorem C07_history_with_torn_crashes_and_clears :
+  forall cr : crypto,
+         crc_ok cr ->
+         (forall x : bytes, Datatypes.length (cr_hash cr x) = 32%nat) ->
+         (forall x : bytes, all_zero (cr_hash cr x) = false) ->
+         (forall x : bytes, bytes_ok (cr_hash cr x) = true) ->
+         (forall sk m : bytes, Datatypes.length (cr_sign cr sk m) = 64%nat) ->
+         (forall sk m : bytes, bytes_ok (cr_sign cr sk m) = true) ->
+         forall (ops : list zop) (c : core) (d : disk) (j : list sop) (ev : list event) 
+           (bs : list bytes) (cl : N -> bool) (sk : bytes),
+         ZInv cr c d bs cl ->
+         kp_secret (c_keypair c) = Some sk ->
+         wf_z ops (N.of_nat (Datatypes.length bs)) ->
+         sumN (map len (bs ++ zappended ops)) <= u64_max ->
+         NODE_SIZE * (2 * N.of_nat (Datatypes.length (bs ++ zappended ops))) <= u64_max ->
+         zrun_safe cr ops c {| w_disk := d; w_journal := j; w_events := ev |} ->
+         zrun cr ops c {| w_disk := d; w_journal := j; w_events := ev |} = zspec ops bs cl \/
+         (exists k : nat,
+            zrun cr ops c {| w_disk := d; w_journal := j; w_events := ev |} =
+            firstn k (zspec ops bs cl) ++ [YOAppend (Panic frame_msg)]) \/ (exists t : nat, collision cr t).
+Proof. exact torn_clear_history_correct. Qed.
+
+Theorem C07_fresh_history_with_torn_crashes_and_clears :
+  forall cr : crypto,
+         crc_ok cr ->
+         (forall x : bytes, Datatypes.length (cr_hash cr x) = 32%nat) ->
+         (forall x : bytes, all_zero (cr_hash cr x) = false) ->
+         (forall x : bytes, bytes_ok (cr_hash cr x) = true) ->
+         (forall sk m : bytes, Datatypes.length (cr_sign cr sk m) = 64%nat) ->
+         (forall sk m : bytes, bytes_ok (cr_sign cr sk m) = true) ->
+         forall (kp : keypair) (sk : bytes) (ops : list zop),
+         keypair_ok kp = true ->
+         kp_secret kp = Some sk ->
+         wf_z ops 0 ->
+         sumN (map len (zappended ops)) <= u64_max ->
+         NODE_SIZE * (2 * N.of_nat (Datatypes.length (zappended ops))) <= u64_max ->
+         ztears_ok false ops ->
+         exists (d0 : disk) (ops0 : list sop) (c0 : core),
+           core_open cr (Some kp) false disk_empty = (d0, ops0, Ok c0) /\
+           (zrun cr ops c0 {| w_disk := d0; w_journal := []; w_events := [] |} =
+            zspec ops [] (fun _ : N => false) \/
+            (exists k : nat,
+               zrun cr ops c0 {| w_disk := d0; w_journal := []; w_events := [] |} =
+               firstn k (zspec ops [] (fun _ : N => false)) ++ [YOAppend (Panic frame_msg)]) \/
+            (exists t : nat, collision cr t)).
+Proof. exact fresh_torn_clear_history_correct. Qed.
+
+Theorem C07_tears_side_condition_with_clears :
+  forall cr : crypto,
+         crc_ok cr ->
+         (forall x : bytes, Datatypes.length (cr_hash cr x) = 32%nat) ->
+         (forall x : bytes, all_zero (cr_hash cr x) = false) ->
+         (forall x : bytes, bytes_ok (cr_hash cr x) = true) ->
+         (forall sk m : bytes, Datatypes.length (cr_sign cr sk m) = 64%nat) ->
+         (forall sk m : bytes, bytes_ok (cr_sign cr sk m) = true) ->
+         forall (ops : list zop) (seen : bool) (c : core) (d : disk) (j : list sop) 
+           (ev : list event) (bs : list bytes) (cl : N -> bool) (sk : bytes),
+         ztears_ok seen ops ->
+         ZInv cr c d bs cl ->
+         kp_secret (c_keypair c) = Some sk ->
+         wf_z ops (N.of_nat (Datatypes.length bs)) ->
+         sumN (map len (bs ++ zappended ops)) <= u64_max ->
+         NODE_SIZE * (2 * N.of_nat (Datatypes.length (bs ++ zappended ops))) <= u64_max ->
+         (seen = false -> hyg cr (f_content (d_oplog d))) ->
+         zrun_safe cr ops c {| w_disk := d; w_journal := j; w_events := ev |} \/
+         (exists t : nat, collision cr t).
+Proof. exact ztears_ok_safe. Qed.
+
+Theorem C07_torn_write_of_a_proof_application_recovers :
+  forall cr : crypto,
+         crc_ok cr ->
+         (forall x : bytes, Datatypes.length (cr_hash cr x) = 32%nat) ->
+         (forall x : bytes, all_zero (cr_hash cr x) = false) ->
+         (forall x : bytes, bytes_ok (cr_hash cr x) = true) ->
+         forall bs : list bytes,
+         writer_fits bs ->
+         forall (f : option bool) (pf : proof) (c : core) (d : disk) (j : list sop) 
+           (ev : list event) (H : N -> bool) (c' : core) (w' : world) (delta : list sop),
+         RDInvZ cr bs c d H ->
+         rd_proof_ok pf ->
+         core_apply_proof cr f pf c {| w_disk := d; w_journal := j; w_events := ev |} = (c', w', Ok true) ->
+         w_journal w' = rev delta ++ j ->
+         (forall (k : nat) (s : store) (off : N) (data : bytes) (t : nat),
+          nth_error delta k = Some (SW s off data) ->
+          (t < Datatypes.length data)%nat ->
+          exists dk dkt : disk,
+            apply_sops d (firstn k delta) = Some dk /\
+            apply_sop dk (tear (SW s off data) t) = Some dkt /\
+            (tear_safe cr dk (SW s off data) t ->
+             (if (k <=? ReplicaDisk4.commit_point pf)%nat
+              then reopens_to cr bs c dkt H (t_length (c_tree c))
+              else reopens_to cr bs c dkt (hold H (p_block pf)) (t_length (c_tree c'))) \/
+             s = Oplog /\ off < ENTRIES_OFFSET /\ collision cr t)) \/
+         Sound.some_collision cr \/ forged_signature cr bs (kp_public (c_keypair c)).
+Proof. exact apply_torn_recovers. Qed.
+
+Theorem C07_torn_non_header_write_of_a_proof_application_recovers :
+  forall cr : crypto,
+         crc_ok cr ->
+         (forall x : bytes, Datatypes.length (cr_hash cr x) = 32%nat) ->
+         (forall x : bytes, all_zero (cr_hash cr x) = false) ->
+         (forall x : bytes, bytes_ok (cr_hash cr x) = true) ->
+         forall bs : list bytes,
+         writer_fits bs ->
+         forall (f : option bool) (pf : proof) (c : core) (d : disk) (j : list sop) 
+           (ev : list event) (H : N -> bool) (c' : core) (w' : world) (delta : list sop),
+         RDInvZ cr bs c d H ->
+         rd_proof_ok pf ->
+         core_apply_proof cr f pf c {| w_disk := d; w_journal := j; w_events := ev |} = (c', w', Ok true) ->
+         w_journal w' = rev delta ++ j ->
+         (forall (k : nat) (s : store) (off : N) (data : bytes) (t : nat),
+          nth_error delta k = Some (SW s off data) ->
+          (t < Datatypes.length data)%nat ->
+          is_slot_write (SW s off data) = false ->
+          exists dk dkt : disk,
+            apply_sops d (firstn k delta) = Some dk /\
+            apply_sop dk (tear (SW s off data) t) = Some dkt /\
+            (if (k <=? ReplicaDisk4.commit_point pf)%nat
+             then reopens_to cr bs c dkt H (t_length (c_tree c))
+             else reopens_to cr bs c dkt (hold H (p_block pf)) (t_length (c_tree c')))) \/
+         Sound.some_collision cr \/ forged_signature cr bs (kp_public (c_keypair c)).
+Proof. exact apply_torn_recovers_plain. Qed.
+
+Theorem C07_replica_history_with_torn_crashes :
+  forall (cr : crypto) (bs : list bytes),
+         crc_ok cr ->
+         (forall x : bytes, Datatypes.length (cr_hash cr x) = 32%nat) ->
+         (forall x : bytes, all_zero (cr_hash cr x) = false) ->
+         (forall x : bytes, bytes_ok (cr_hash cr x) = true) ->
+         writer_fits bs ->
+         forall (ops : list rzop) (c : core) (d : disk) (j : list sop) (ev : list event) (H : N -> bool),
+         RDInvZ cr bs c d H ->
+         Forall rzop_ok ops ->
+         rz_safe cr ops c {| w_disk := d; w_journal := j; w_events := ev |} ->
+         rz_ok bs H (t_length (c_tree c)) ops
+           (rz_run cr ops c {| w_disk := d; w_journal := j; w_events := ev |}) \/
+         escapes cr bs (kp_public (c_keypair c)).
+Proof. exact replica_torn_history. Qed.
+
+Theorem C07_fresh_replica_history_with_torn_crashes :
+  forall (cr : crypto) (bs : list bytes),
+         crc_ok cr ->
+         (forall x : bytes, Datatypes.length (cr_hash cr x) = 32%nat) ->
+         (forall x : bytes, all_zero (cr_hash cr x) = false) ->
+         (forall x : bytes, bytes_ok (cr_hash cr x) = true) ->
+         writer_fits bs ->
+         forall (kp : keypair) (ops : list rzop),
+         keypair_ok kp = true ->
+         kp_secret kp = None ->
+         Forall rzop_ok ops ->
+         exists (d0 : disk) (ops0 : list sop) (c0 : core),
+           core_open cr (Some kp) false disk_empty = (d0, ops0, Ok c0) /\
+           (rz_tears cr false ops c0 {| w_disk := d0; w_journal := []; w_events := [] |} ->
+            rz_ok bs (fun _ : N => false) 0 ops
+              (rz_run cr ops c0 {| w_disk := d0; w_journal := []; w_events := [] |}) \/
+            escapes cr bs (kp_public kp)).
+Proof. exact fresh_replica_torn_history. Qed.
+
+Theorem C07_torn_tolerant_replica_invariant :
+  forall cr : crypto,
+         (forall x : bytes, Datatypes.length (cr_hash cr x) = 32%nat) ->
+         (forall x : bytes, all_zero (cr_hash cr x) = false) ->
+         forall (bs : list bytes) (c : core) (d : disk) (H : N -> bool),
+         RDInv cr bs c d H -> TreeOk (d_tree d) -> RDInvZ cr bs c d H.
+Proof. exact RDInv_RDInvZ. Qed.
+
+Theorem C07_torn_replica_disk_reopens :
+  forall cr : crypto,
+         crc_ok cr ->
+         (forall x : bytes, Datatypes.length (cr_hash cr x) = 32%nat) ->
+         (forall x : bytes, all_zero (cr_hash cr x) = false) ->
+         (forall x : bytes, bytes_ok (cr_hash cr x) = true) ->
+         forall (bs : list bytes) (pk : bytes) (d : disk) (H : N -> bool) (r : N),
+         RDiskZ cr bs pk d H r ->
+         exists (c' : core) (d' : disk) (ops : list sop),
+           core_open cr None true d = (d', ops, Ok c') /\
+           RDInvZ cr bs c' d' H /\
+           t_length (c_tree c') = r /\
+           c_keypair c' = {| kp_public := pk; kp_secret := None |} /\
+           c_skip c' = 0 /\
+           d_tree d' = d_tree d /\
+           d_data d' = d_data d /\
+           d_bitfield d' = d_bitfield d /\
+           (ops = [] /\ d' = d \/ ops = [ST Oplog ENTRIES_OFFSET]) /\
+           (hyg cr (f_content (d_oplog d)) -> hyg cr (f_content (d_oplog d'))).
+Proof. exact reopen_RDiskZ. Qed.
+
 Print Assumptions C07_torn_entry_is_no_frame.
 Print Assumptions C07_torn_append_recovers_before.
 Print Assumptions C07_torn_flush_before_after_or_collision.
@@ -577,3 +766,16 @@ Print Assumptions C07_torn_disk_with_clears_reopens.
 Print Assumptions TornClear.crc_every_tear_of_a_flushing_clear.
 Print Assumptions TornClear.crc_stale_unread_bit_state.
 Print Assumptions TornClear.crc_every_tear_of_make_read_only.
+Print Assumptions C07_history_with_torn_crashes_and_clears.
+Print Assumptions C07_fresh_history_with_torn_crashes_and_clears.
+Print Assumptions C07_tears_side_condition_with_clears.
+Print Assumptions C07_torn_write_of_a_proof_application_recovers.
+Print Assumptions C07_torn_non_header_write_of_a_proof_application_recovers.
+Print Assumptions C07_replica_history_with_torn_crashes.
+Print Assumptions C07_fresh_replica_history_with_torn_crashes.
+Print Assumptions C07_torn_tolerant_replica_invariant.
+Print Assumptions C07_torn_replica_disk_reopens.
+Print Assumptions TornHistory.toy_torn_clear_history.
+Print Assumptions TornReplica.scz_every_tear_of_first_contact.
+Print Assumptions TornReplica.scz_torn_states_met.
+Print Assumptions TornReplica.scz_history_computed.
